@@ -185,6 +185,10 @@ func coqOp(o Op) string {
 		return "SCloseAll"
 	case "stdclose":
 		return "SStdClose"
+	case "stdwrite":
+		return "SStdWrite"
+	case "devfull":
+		return "SDevFull"
 	case "read":
 		it := make([]string, len(o.Fmts))
 		for i, f := range o.Fmts {
